@@ -119,6 +119,13 @@ class Ghost(F.Hooks):
         K = self.cls
         if kind == 'append' and isinstance(val, tuple) and val and val[0] == 'OK':
             if K == 'Sep':
+                prev = s.bl.get('#last')
+                if not self.cfg.kwargs.get('discard_separators') and prev == val[1]:
+                    what = 'elements' if val[1] == 'e' else 'separators'
+                    msg = (f'Sep(discard_separators=False): two {what} are appended next to each other - the '
+                           f'separator matched between two elements does not reach the result on this path')
+                    if ('S-value', msg) not in self.viol:
+                        self.viol.append(('S-value', msg))
                 s.bl['#last'] = val[1]
             if K == 'List' and self.cfg.kwargs.get('max_len') is not None:
                 s.bl['#pend'] = True
